@@ -220,6 +220,6 @@ def oracle_history(case):
 
 
 SUBS = [
-    Sub('fit', st.fixed_dictionaries({'data': data_strategy()}), oracle_fit, quick=1600, thorough=48000),
-    Sub('refusal_history', history_strategy(), oracle_history, quick=800, thorough=24000),
+    Sub('fit', st.fixed_dictionaries({'data': data_strategy()}), oracle_fit, quick=1600, thorough=384000),
+    Sub('refusal_history', history_strategy(), oracle_history, quick=800, thorough=192000),
 ]
